@@ -362,9 +362,24 @@ def interactions(repo, chk):
             bb = unify(unkind(pattern(m, f"pandas.DataFrame([{{'Feature': kv[0], C: AGG(kv[1])}} for kv in {store_name}.items()])", ['C', 'AGG'])), unkind(recv))
             if bb is not None and bb['AGG'] != ('lib', 'numpy.median'):
                 other_agg = bb['AGG']
+        other_expr = None
+        if store_name and not okm and other_agg is None:
+            # any other expression over the collected scores in the place of np.median(scores)
+            bb = unify(unkind(pattern(m, f"pandas.DataFrame([{{'Feature': kv[0], C: EXPR}} for kv in {store_name}.items()])", ['C', 'EXPR'])), unkind(recv))
+            if bb is not None:
+                ex = bb['EXPR']
+                medians = [unkind(pattern(m, src)) for src in ('numpy.median(kv[1])', 'statistics.median(kv[1])', 'numpy.percentile(kv[1], 50)', 'numpy.quantile(kv[1], 0.5)', 'float(numpy.median(kv[1]))')]
+                fns = {x[1] for x in walk_term(ex) if isinstance(x, tuple) and len(x) == 4 and x[0] == 'call'}
+                simple = {('lib', 'numpy.sort'), ('name', 'sorted'), ('name', 'len'), ('lib', 'numpy.mean'), ('name', 'sum'), ('name', 'max'), ('name', 'min'), ('lib', 'numpy.max'), ('lib', 'numpy.min'), ('lib', 'numpy.sum'),
+                          ('lib', 'numpy.average'), ('lib', 'statistics.mean'), ('lib', 'numpy.percentile'), ('lib', 'numpy.quantile'), ('name', 'int'), ('name', 'float'), ('name', 'list')}
+                if not any(unify(md, ex) is not None for md in medians) and fns <= simple:
+                    other_expr = ex
         if okm:
             oks.add('C18.4e')
             oks.add('C18.4g')
+        elif other_expr is not None:
+            problems.setdefault('C18.4e', (wr[0]['node'], f'the aggregated table must hold np.median of the collected scores for every constituent; it holds {show(other_expr)[:100]} (for an even number of scores the median is the '
+                                                          'mean of the two middle ones, not one of them)'))
         elif other_agg is not None:
             problems.setdefault('C18.4e', (wr[0]['node'], f'the aggregated table must hold np.median of the collected scores for every constituent; it holds {show(other_agg)[:60]}'))
         elif store_name:
